@@ -2,7 +2,7 @@
 # usage: tools/eval_all.sh  — evaluates every seeded change (seeded/*/patch.diff) and the revert of every `fix:` commit of
 # /repo against the quick check of its property; prints one line per change: <id> concrete | corr-only | MISSED
 cd /verif
-for d in seeded/*/; do
+for d in seeded/C*/; do
   id=$(basename $d); prop=${id%%-*}
   out=$(tools/eval_mutant.sh /verif/$d/patch.diff $prop 2>&1)
   if echo "$out" | grep -q "^VIOLATION.*no-failing-input-found"; then r=corr-only
